@@ -209,5 +209,7 @@ pub fn storedesc(data: &[u8]) -> StoreDesc {
             }
         })
         .collect();
-    StoreDesc { ops, flush_sel, older_sel, rotation, other_slot, with_secret, partial_tail, stale_tail, torn_tail }
+    let partial_mask = if n(&mut u, 4) < 2 { 0 } else { u16_(&mut u) };
+    let fork_sel = n(&mut u, 7) as u8;
+    StoreDesc { ops, flush_sel, older_sel, rotation, other_slot, with_secret, partial_tail, stale_tail, torn_tail, partial_mask, fork_sel }
 }
